@@ -1,4 +1,5 @@
-// Concurrency driver for C20: executes a generated workload (threads x operations) first sequentially, then concurrently
+// Concurrency driver for C20: executes a generated workload (threads x operations) first sequentially, then sequentially in the
+// opposite order, then concurrently
 // from a barrier (several rounds), on distinct output objects, and compares every concurrent result with the sequential
 // one. Built with -fsanitize=thread so that unsynchronised shared state is reported even if no result differs.
 // Workload file: first line "T R" (threads, rounds), then per thread a line "n op seed op seed ...".
@@ -49,7 +50,7 @@ static void scalar_from(embedded_pairing_core_bigint_256_t* k, uint64_t seed) {
     rng_state = saved;
 }
 
-static const int NUM_OPS = 14;
+static const int NUM_OPS = 16;
 static void run_op(int op, uint64_t seed, Result* r) {
     memset(r, 0, sizeof(*r));
     embedded_pairing_core_bigint_256_t k, k2;
@@ -106,6 +107,14 @@ static void run_op(int op, uint64_t seed, Result* r) {
         embedded_pairing_lqibe_secretkey_t sk; embedded_pairing_lqibe_keygen(&sk, &lq_msk, &id);
         embedded_pairing_lqibe_ciphertext_t ct; embedded_pairing_lqibe_encrypt(&ct, r->bytes, 32, &lq_params, &id, hash_fill, rnd_bytes);
         embedded_pairing_lqibe_decrypt(r->bytes + 32, 32, &ct, &sk, &id, hash_fill); break; }
+    case 14: {  // G2: in-place multiplication, then a multiplication whose base is that result
+        embedded_pairing_bls12_381_g2_t q; embedded_pairing_bls12_381_g2_multiply_affine(&q, embedded_pairing_bls12_381_g2affine_generator, &k);
+        embedded_pairing_bls12_381_g2_multiply(&q, &q, &k2);
+        embedded_pairing_bls12_381_g2_multiply((embedded_pairing_bls12_381_g2_t*) r->bytes, &q, &k); break; }
+    case 15: {  // G1 likewise
+        embedded_pairing_bls12_381_g1_t p; embedded_pairing_bls12_381_g1_multiply_affine(&p, embedded_pairing_bls12_381_g1affine_generator, &k);
+        embedded_pairing_bls12_381_g1_multiply(&p, &p, &k2);
+        embedded_pairing_bls12_381_g1_multiply((embedded_pairing_bls12_381_g1_t*) r->bytes, &p, &k); break; }
     }
 }
 
@@ -139,6 +148,17 @@ int main(int argc, char** argv) {
         for (size_t i = 0; i != work[t].size(); i++) run_op(work[t][i].first, work[t][i].second, &ref[t][i]);
     }
     long mismatches = 0;
+    // every operation is a function of (op, seed): running the same operations one after another in the opposite order must give
+    // the same results - state kept between calls (a cache keyed too loosely, a counter) shows as a difference without any thread
+    for (int t = T - 1; t != -1; t--) {
+        for (size_t i = work[t].size(); i-- != 0; ) {
+            run_op(work[t][i].first, work[t][i].second, &got[t][i]);
+            if (memcmp(&ref[t][i], &got[t][i], sizeof(Result)) != 0) {
+                if (mismatches < 5) printf("ORDER-MISMATCH thread=%d index=%zu op=%d seed=%llu\n", t, i, work[t][i].first % NUM_OPS, (unsigned long long) work[t][i].second);
+                mismatches++;
+            }
+        }
+    }
     for (int round = 0; round != R; round++) {
         std::atomic<int> ready(0);
         std::atomic<bool> go(false);
